@@ -130,6 +130,32 @@ func c08ASTs(quick bool) []refxp.Expr {
 	}
 	add(rel(dot()), rel(dotdot()), rel(child("a"), dotdot()), rel(dot(), child("a")), abs(), abs(child("a")), abs(ds(child("a"))), rel(child("a"), ds(child("b"))), rel(dot(), ds(child("b"))), abs(ds(attr("x"))),
 		abs(child("*"), attr("a")), rel(child("a"), child("a")), abs(ds(dot())), abs(ds(dotdot())), abs(ds(child("a")), dotdot(), attr("x")), rel(attr("x")), abs(ds(child("b")), dot(), dotdot(), ds(child("b"))))
+	// every sequence of up to three abbreviated steps after //* (each is also
+	// rendered in its expanded form): a step's meaning must not depend on which
+	// axis an earlier step of the same path used
+	stepAlpha := []func() *refxp.Step{
+		func() *refxp.Step { return child("a") }, func() *refxp.Step { return child("*") }, func() *refxp.Step { return attr("x") }, func() *refxp.Step { return attr("*") },
+		dot, dotdot, func() *refxp.Step { return axisStep("namespace", nameTest("*")) }, func() *refxp.Step { return child("b") },
+		func() *refxp.Step { return &refxp.Step{Form: refxp.FormChild, Axis: "child", Test: refxp.Test{Kind: refxp.TText}} }, func() *refxp.Step { return ds(child("a")) },
+	}
+	for _, s1 := range stepAlpha {
+		for _, s2 := range stepAlpha {
+			add(abs(ds(child("*")), s1(), s2()), rel(s1(), s2()))
+			for _, s3 := range stepAlpha {
+				if quick && len(out)%2 == 1 {
+					continue
+				}
+				add(abs(ds(child("*")), s1(), s2(), s3()))
+			}
+		}
+	}
+	// predicates on attribute / namespace steps that walk back into the element tree
+	for _, p := range []refxp.Expr{rel(dotdot(), child("a")), rel(dotdot(), child("*")), rel(dotdot()), bin("=", rel(dotdot(), child("b")), num("3")), call("count", rel(dotdot(), child("*")))} {
+		at := attr("x")
+		at.Preds = []refxp.Expr{p}
+		add(abs(ds(child("*")), at), abs(ds(child("*")), axisStep("attribute", nameTest("*"), p)), abs(ds(child("*")), axisStep("namespace", nameTest("*"), p)),
+			filt(&refxp.Paren{X: abs(ds(attr("x")))}, []refxp.Expr{p}), filt(&refxp.Paren{X: abs(ds(attr("x")))}, nil, dotdot(), child("a")))
+	}
 	// predicates: nesting, chains, all expression kinds inside
 	preds := []refxp.Expr{num("1"), num("2"), call("last"), bin("=", call("position"), num("2")), rel(child("b")), rel(attr("x")), lit("s"), lit(""), call("true"), call("false"),
 		bin("=", rel(dot()), num("2")), bin(">", call("count", rel(child("*"))), num("0")), bin("-", call("last"), num("1")), bin("or", rel(child("b")), rel(attr("x"))), bin("and", num("1"), num("0")),
